@@ -6,9 +6,7 @@ ids="$@"; [ -z "$ids" ] && ids=$(ls /verif/benign/*.patch.diff | sed 's#.*/##; s
 WT=$(mktemp -d /tmp/govc-benign.XXXX); OUT=$(mktemp -d /tmp/govc-benign-out.XXXX); rmdir $WT
 git -C /repo worktree add -q --detach $WT HEAD || exit 2
 for id in $ids; do
-  if ! git -C $WT apply /verif/benign/$id.patch.diff 2>/dev/null; then
-     (cd $WT && patch -p1 --fuzz=3 -s < /verif/benign/$id.patch.diff >/dev/null 2>&1) || { echo "$id patch-does-not-apply"; git -C $WT checkout -q -- .; git -C $WT clean -fdq; continue; }
-  fi
+  if ! git -C $WT apply /verif/benign/$id.patch.diff 2>/dev/null; then echo "$id patch-does-not-apply"; continue; fi
   out=$(cd /verif && GOVC_REPO=$WT GOVC_OUT=$OUT /verif/bin/govc check ALLX --tier quick 2>&1)
   v=$(echo "$out" | grep -c '^VIOLATION')
   echo "$id false-alarms=$v $(echo "$out" | grep 'obligation:' | head -3 | tr '\n' ' ' | cut -c1-300)"
